@@ -368,6 +368,8 @@ Proof.
   - eapply IH; eauto.
   - destruct (nth_error (crec ctx) k); [eapply IH; eauto|discriminate].
   - (* Pratt *) eapply (proj1 (pratt_ext _ IH g ops ctx n)); eauto.
+  - (* GroupArr *) eapply group_sem_ext; eauto.
+  - discriminate.
 Qed.
 
 End Extent.
